@@ -172,13 +172,54 @@ Example unit_spellings_witness :
   /\ 10 ^ 11 <= Z.abs (-100000001 * 1000 + 500) < 10 ^ 14.
 Proof. split; [vm_compute; reflexivity | lia]. Qed.
 
-(** ** A JSON integer below i64::MIN reaches [normalize_json_number] as a float
-    (serde_json keeps it as f64) and is read as float SECONDS, saturating; the
-    same digits as a string are normalised as nanoseconds. Known finding of C16. *)
-Example json_integer_below_i64_refuted :
-  normalize_json_number (JDec (-9999999997000000001) 0) = Some (- 2 ^ 63)
-  /\ normalize_integer_epoch (-9999999997000000001) = Some (-9999999998).
-Proof. split; vm_compute; reflexivity. Qed.
+(** ** JSON numbers that serde_json keeps as f64 (decimals, exponents, integers outside
+    [i64::MIN, u64::MAX]) are read as float SECONDS: the stored value is the floor of the
+    written value, or the value is rejected — never a saturated second count
+    ([time_float_checks_i64_range], regenerated from src/shared/time.rs). *)
+Theorem json_float_floor_or_rejected : forall m e z,
+  normalize_json_number (JDec m e) = Some z -> z = floor_dec m e /\ i64_min <= z <= i64_max.
+Proof.
+  intros m e z H. cbn [normalize_json_number] in H. unfold time_float_checks_i64_range in H.
+  unfold try_i64 in H.
+  destruct ((i64_min <=? floor_dec m e) && (floor_dec m e <=? i64_max)) eqn:B; [|discriminate].
+  injection H as <-. split; [reflexivity | lia].
+Qed.
+
+Theorem json_float_in_range_accepted : forall m e,
+  i64_min <= floor_dec m e <= i64_max ->
+  normalize_json_number (JDec m e) = Some (floor_dec m e).
+Proof.
+  intros m e H. cbn [normalize_json_number]. unfold time_float_checks_i64_range, try_i64.
+  destruct ((i64_min <=? floor_dec m e) && (floor_dec m e <=? i64_max)) eqn:B; [reflexivity | lia].
+Qed.
+
+(** How serde_json holds an integer literal: i64 / u64 when it fits, f64 otherwise. *)
+Definition jnum_of_integer (z : Z) : jnum :=
+  if (i64_min <=? z) && (z <=? 2 ^ 64 - 1) then JInt z else JDec z 0.
+
+(** A JSON integer literal of ANY size in a time field is normalised exactly like the same
+    digits written as a string, or it is rejected; it is never stored as another second.
+    (Was the known class JsonIntegerBelowI64ReadAsFloatSeconds: below i64::MIN the literal
+    was read as float seconds and saturated to i64::MIN.) *)
+Theorem json_integer_never_misread : forall z,
+  normalize_json_number (jnum_of_integer z) = normalize_integer_epoch z
+  \/ normalize_json_number (jnum_of_integer z) = None.
+Proof.
+  intros z. unfold jnum_of_integer.
+  destruct ((i64_min <=? z) && (z <=? 2 ^ 64 - 1)) eqn:B; [left; reflexivity|].
+  right. cbn [normalize_json_number]. unfold time_float_checks_i64_range, floor_dec.
+  cbn [Z.leb Z.compare]. change (10 ^ 0) with 1. rewrite Z.mul_1_r.
+  unfold try_i64, i64_min, i64_max in *.
+  destruct ((- 2 ^ 63 <=? z) && (z <=? 2 ^ 63 - 1)) eqn:C; [lia | reflexivity].
+Qed.
+
+(** the former witness: the nanosecond count of an instant in 1653 as a JSON number is now
+    rejected; the same digits as a string give the right second *)
+Example json_integer_below_i64_rejected :
+  normalize_json_number (jnum_of_integer (-9999999997000000001)) = None
+  /\ normalize_integer_epoch (-9999999997000000001) = Some (-9999999998)
+  /\ normalize_json_number (JDec 1 300) = None.
+Proof. repeat split; vm_compute; reflexivity. Qed.
 
 (** Outside that class JSON integers and numeric strings agree: both go through
     [normalize_integer_epoch]. *)
